@@ -502,9 +502,9 @@ Qed.
 Lemma value_count_rank : forall v vshape, (vshape = [] \/ List.length vshape = List.length (v_count v)) ->
   spec_value_count v vshape = [] \/ List.length (spec_value_count v vshape) = List.length (v_count v).
 Proof.
-  intros v vshape [-> | H]; unfold spec_value_count.
+  intros v vshape H. unfold spec_value_count. destruct vshape as [|x r].
   - right. apply repeat_length.
-  - destruct vshape; [left; reflexivity | right; exact H].
+  - right. destruct H as [H | H]; [discriminate | exact H].
 Qed.
 
 Lemma value_count_u64 : forall v vshape, all_u64 vshape -> all_u64 (spec_value_count v vshape).
@@ -544,6 +544,19 @@ Proof.
   cbn [bind]. rewrite value_count_prod, Hbuf, Z.ltb_irrefl. reflexivity.
 Qed.
 
+Lemma unravel_ones : forall m, unravel (repeat 1 m) 0 = repeat 0 m.
+Proof.
+  induction m as [|m IHm]; cbn [repeat unravel]; [reflexivity|]. rewrite prod_repeat1.
+  change (0 / 1) with 0. change (0 mod 1) with 0. rewrite IHm. reflexivity.
+Qed.
+
+(** a box of ones has one index: zeros *)
+Lemma tab_ones : forall {A} n (f : list Z -> A), tab (repeat 1 n) f = [f (repeat 0 n)].
+Proof.
+  intros A n f. unfold tab. rewrite prod_repeat1. change (Z.to_nat 1) with 1%nat. cbn [seq map].
+  change (Z.of_nat 0) with 0. rewrite unravel_ones. reflexivity.
+Qed.
+
 (** in particular: no undefined behaviour, and a scalar moves exactly one element - the window origin for an empty offset *)
 Corollary scalar_read_one_element : forall B a v off,
   scalar_template_empty_count B = false -> view_check_wraps B = false -> view_ok a v -> all_u64 off ->
@@ -560,14 +573,10 @@ Proof.
     destruct OK as [_ F _ _ _]. destruct (fits_lengths _ _ _ F) as [L1 L2].
     assert (v_offset v = []) by (apply length_zero_nil; lia).
     assert (real_offset v off = []).
-    { destruct Ro as [-> | Ho]; [cbn [real_offset]; rewrite E; reflexivity|]. destruct off; [reflexivity | cbn [List.length] in Ho; lia]. }
+    { destruct off as [|o off']; [cbn [real_offset]; rewrite E; reflexivity|]. destruct Ro as [Ho | Ho]; [discriminate | cbn [List.length] in Ho; lia]. }
     rewrite H, H0. reflexivity.
   - cbn [repeat real_count]. change (1 :: repeat 1 n) with (repeat 1 (S n)).
-    (* a box of ones has one index: zeros *)
-    unfold tab. rewrite prod_repeat1. cbn [Z.to_nat Pos.to_nat Pos.iter_op seq map Nat.add]. f_equal. f_equal.
-    assert (Hz : forall m, unravel (repeat 1 m) 0 = repeat 0 m).
-    { induction m as [|m IHm]; cbn [repeat unravel]; [reflexivity|]. rewrite prod_repeat1. cbn. rewrite IHm. reflexivity. }
-    cbn [Z.of_nat]. rewrite Hz.
+    rewrite tab_ones. f_equal. f_equal.
     unfold inside_window in IN. destruct (fits_lengths _ _ _ IN) as [L1 _].
     destruct OK as [_ F _ _ _]. destruct (fits_lengths _ _ _ F) as [L3 L4].
     replace (S n) with (List.length (vadd (v_offset v) (real_offset v off))) by (rewrite vadd_length; lia).
